@@ -62,7 +62,10 @@ def main():
         if not p.endswith(".patch"):
             # seeded change: property from meta.json
             meta = json.load(open(os.path.join(os.path.dirname(p), "meta.json")))
-            prop = meta["property"]
+            if meta.get("expect") == "harmless":
+                print(f"{name}: skipped (no longer breaks the property on the current tree, see meta.json)")
+                continue
+            prop = meta.get("check_property", meta["property"])
             tmp = os.path.join(scratch(), f"{prop}_{name}.patch")
             shutil.copy(p, tmp)
             p = tmp
